@@ -460,6 +460,18 @@ func checkC14(c *runCtx) {
 			}
 		}
 	}
+	// the first frame of an accepted connection, as the TCP mux reads it (512-byte buffer): every announced length on a
+	// boundary, with the body present, cut short or absent. No panic; a frame that does not fit ends the stream.
+	for _, l := range []int{0, 1, 19, 20, 511, 512, 513, 600, 8192, 65535} {
+		for _, body := range []string{"full", "half", "none"} {
+			problem := c14firstFrame(c.t, l, body)
+			evals++
+			nontrivial++
+			if problem != "" {
+				report("TCP mux, first frame", fmt.Sprintf("announced length %d, body %s: %s", l, body, problem), map[string]any{"length": l, "body": body}, "")
+			}
+		}
+	}
 	// hostile streams through the user: a frame larger than the receive buffer (whose body looks like well-formed
 	// frames), truncated frames, garbage. Exactly the packets before the offending frame are delivered, then the stream is closed.
 	evil := c14frame([]byte("EVIL"), []byte("MORE"))
@@ -616,6 +628,38 @@ func c14sendSide(t *testing.T, writeBuffer int, sizes []int) (problem string) {
 		_ = pc.Close()
 		_ = conn.Close()
 		synctest.Wait()
+	})
+
+	return problem
+}
+
+// c14firstFrame hands a scripted stream to TCPMuxDefault.handleConn (called synchronously, the way its accept loop
+// does on a goroutine of its own).
+func c14firstFrame(t *testing.T, length int, body string) (problem string) {
+	inBubble(t, func() {
+		lis := &fakeLis{ch: make(chan net.Conn), closed: make(chan struct{}), addr: &net.TCPAddr{IP: net.IPv4(10, 0, 0, 1), Port: 7001}}
+		m := NewTCPMuxDefault(TCPMuxParams{Listener: lis, Logger: nopLogger{}, ReadBufferSize: 16})
+		defer m.Close() //nolint:errcheck
+		stream := []byte{byte(length >> 8), byte(length)}
+		switch body {
+		case "full":
+			stream = append(stream, c14payload(length, 9)...)
+		case "half":
+			stream = append(stream, c14payload(length/2, 9)...)
+		}
+		conn := &c14conn{stream: stream, answer: func(req, _ int) (int, error) { return req, nil }}
+		func() {
+			defer func() {
+				if r := recover(); r != nil {
+					problem = fmt.Sprintf("the mux panics on the first frame: %v", r)
+				}
+			}()
+			m.handleConn(conn)
+		}()
+		synctest.Wait()
+		if problem == "" && length > 512 && !conn.closed.Load() {
+			problem = "a first frame that does not fit the mux's buffer did not end the stream"
+		}
 	})
 
 	return problem
